@@ -186,6 +186,10 @@ class Check(PropertyCheck):
                   "(flowfilter.match only cross-checked); update outcomes are checked against the request (bad filter / "
                   "unopenable file must raise, option set/unset as requested, unchanged after a failure). No implementation "
                   "state is copied into the model (it receives the same events and the harness-chosen flow contents). "
+                  "Transcribed this round: flowfilter.match for the 14 atoms and !,&,| (Model/C39_Flt.lean, Flt.eval: the driver's matcher "
+                  "is now a model definition with theorems flt_combinators, flt_class_atoms, lifecycle_written_exactly_once_flt) and "
+                  "save._mode/_path (specMode/specPath, spec_plus_prefix, spec_no_prefix; tied by the `spec` case kind; "
+                  "os.path.expanduser not modelled: no spec starts with '~'). Still parameters: strftime and Path.open. "
                   "flowfilter.match, strftime and Path.open are environment parameters of the theorems; the driver "
                   "instantiates them with a 14-atom filter AST (~all ~http ~tcp ~udp ~dns ~websocket ~s ~e ~marked ~q ~replay "
                   "'~m POST' '~c 200' '~c 404' with ! & |), three strftime patterns over an hour/minute clock (r%M, d%H/x%M with "
@@ -211,7 +215,13 @@ class Check(PropertyCheck):
                     "mitmproxy.addons.save:Save.error", "mitmproxy.addons.save:Save.dns_request", "mitmproxy.addons.save:Save.dns_response",
                     "mitmproxy.addons.save:Save.dns_error", "mitmproxy.addons.save:_path", "mitmproxy.addons.save:_mode",
                     "mitmproxy.io.io:FilteredFlowWriter.add", "mitmproxy.io.io:FilteredFlowWriter.__init__",
-                    "mitmproxy.optmanager:OptManager.rollback", "mitmproxy.optmanager:OptManager.update_known"]
+                    "mitmproxy.optmanager:OptManager.rollback", "mitmproxy.optmanager:OptManager.update_known",
+                    "mitmproxy.flowfilter:FErr.__call__", "mitmproxy.flowfilter:FMarked.__call__", "mitmproxy.flowfilter:FHTTP.__call__",
+                    "mitmproxy.flowfilter:FWebSocket.__call__", "mitmproxy.flowfilter:FTCP.__call__", "mitmproxy.flowfilter:FUDP.__call__",
+                    "mitmproxy.flowfilter:FDNS.__call__", "mitmproxy.flowfilter:FReq.__call__", "mitmproxy.flowfilter:FResp.__call__",
+                    "mitmproxy.flowfilter:FAll.__call__", "mitmproxy.flowfilter:FReplay.__call__", "mitmproxy.flowfilter:FMethod.__call__",
+                    "mitmproxy.flowfilter:FCode.__call__", "mitmproxy.flowfilter:FNot.__call__", "mitmproxy.flowfilter:FAnd.__call__",
+                    "mitmproxy.flowfilter:FOr.__call__", "mitmproxy.flowfilter:only"]
     trusted_base = ["flowfilter.match on the 9 atoms used (validated by the run, not proved)",
                     "tnetstring dump/FlowReader round trip (C36) to read the records back",
                     "the OS file semantics of 'wb'/'ab' opens as modelled by FS (validated by the run)"]
@@ -353,7 +363,12 @@ class Check(PropertyCheck):
         elif r < 85: evs.append(["update", "none", ",".join(self._rand_filter(rng))])
         return {"types": types, "events": evs}
 
+    SPECS = ["a", "+a", "++a", "+", "", "a+", "+ a", "sub/+b", "+sub/b", "r%M", "+r%M", "+-", "x+y", "+\u00e4", "\u00e4+"]
+
     def generate(self, rng, tier):
+        # tie of the save._path / save._mode transcription (case kind "spec"; no property clause applies to it)
+        for sp in self.SPECS:
+            yield {"kind": "spec", "s_hex": sp.encode().hex() or "-"}
         # small scope first: one flow of every type, each completion hook, with/without filter, stop by done/option
         for t in TYPES:
             for mode in ("w0", "a0", "w2"):
@@ -499,6 +514,12 @@ class Check(PropertyCheck):
         return {"steps": steps, "meta": meta, "final": final}, lines
 
     def impl(self, case):
+        if case.get("kind") == "spec":
+            sp = bytes.fromhex(case["s_hex"]).decode() if case["s_hex"] != "-" else ""
+            pth = save._path(sp).encode()
+            obs = {"spec": ("a " if save._mode(sp) == "ab" else "w ") + (pth.hex() or "-")}
+            Check._cache = (json.dumps(case, sort_keys=True), ["spec " + case["s_hex"]])
+            return obs
         try:
             obs, lines = self._run(case)
         except Exception as e:
@@ -509,6 +530,7 @@ class Check(PropertyCheck):
 
     # ------------------------------------------------------------------ the property on the real observations
     def oracle(self, case, obs):
+        if "spec" in obs: return []          # transcription tie only
         if "exc" in obs: return ["unexpected exception " + obs["exc"]]
         fails = []
         sizes = {}
@@ -578,6 +600,7 @@ class Check(PropertyCheck):
         return Check._cache[1]
 
     def model_obs(self, case, replies):
+        if case.get("kind") == "spec": return {"spec": replies[0]}
         n = 1 + len(case["types"])
         return {"steps": replies[n:-1], "final": replies[-1]}
 
@@ -585,7 +608,7 @@ class Check(PropertyCheck):
     def _recs(l): return ",".join("%d.%d" % (a, b) for a, b in l)
 
     def impl_view(self, case, obs):
-        if "exc" in obs: return obs
+        if "exc" in obs or "spec" in obs: return obs
         steps = []
         for raised, dead, stream, act, ch in obs["steps"]:
             chs = ";".join("%d:%d:%s" % (pid, kept, self._recs(add)) for pid, kept, add in ch) or "-"
@@ -594,10 +617,12 @@ class Check(PropertyCheck):
         return {"steps": steps, "final": fin}
 
     def classify(self, case, obs):
+        if "spec" in obs: return "spec:" + case["s_hex"]
         if "exc" in obs or not obs["final"]: return None
         return json.dumps(case, sort_keys=True)
 
     def branches(self, case, obs):
+        if "spec" in obs: return ["spec:" + obs["spec"][0]]
         if "exc" in obs: return ["exc"]
         out = []
         for (raised, dead, stream, act, ch), m in zip(obs["steps"], obs["meta"]):
@@ -617,6 +642,7 @@ class Check(PropertyCheck):
         return out
 
     def neighbours(self, case, rng):
+        if case.get("kind") == "spec": return
         evs = case["events"]
         for i in range(len(evs) + 1):
             for extra in (["done"], ["update", "none", "_"], ["update", "w3", "_"], ["update", "_", "bad"], ["tick", 2]):
